@@ -162,6 +162,9 @@ class Driver:
         self.clock = float(self.keys[2])
 
         def fake_input(*a):
+            # like the real input() when stdin / stdout are not terminals: a prompt goes to standard output
+            if a and a[0]:
+                sys.stdout.write(str(a[0]))
             if not answers:
                 raise EOFError('EOF when reading a line')
             return answers.pop(0)
@@ -219,6 +222,9 @@ def run_guesser(tdir, argv, quit_after=None, session='default_run', keep_modules
                     drv.clock = float(line_keys[2])
 
                     def fake_input(*a):
+                        # like the real input() when stdin / stdout are not terminals: a prompt goes to standard output
+                        if a and a[0]:
+                            sys.stdout.write(str(a[0]))
                         if not answers:
                             raise EOFError('EOF when reading a line')
                         return answers.pop(0)
